@@ -224,6 +224,9 @@ def main(tier):
     rule_dispatch(ck, units)
     rule_order(ck, units)
     rule_scan(ck, units)
+    import c17
+    cu = ir.run_units([dict(name='controls', src=os.path.join(T, 'controls.cpp'))], 'C08c')
+    c17.rule_F(ck, units, cu['controls'])     # no binary search over unsorted rows (diagonal extraction etc.; shared with C17)
     c06.rule_chebyshev_bounds(ck, units, which=('sib',))
     ck.assumptions += ['that the kernels compute the products, sums and transposes their definitions prescribe (values, well-formed CRS structure), the row-merge kernel, the Gershgorin / power-method bounds '
                        'themselves and the block-to-pointwise reduction are NOT decided: they quantify over values',
